@@ -273,7 +273,8 @@ func ruleIndexSites(r *rep.Report, p *load.Program, rl *roles.Roles) {
 			done++
 			continue
 		}
-		open[ssau.QName(s.fn)] = append(open[ssau.QName(s.fn)], s)
+		k := indexFamily(rl, s.fn)
+		open[k] = append(open[k], s)
 	}
 	var names []string
 	for k := range open {
@@ -298,21 +299,38 @@ func ruleIndexSites(r *rep.Report, p *load.Program, rl *roles.Roles) {
 // indexAssumptions: functions whose remaining non-constant index sites rest on a length guard established elsewhere or on a
 // data invariant of the arithmetic (DESIGN section 4 P). One line of reason each; a function not listed here may have none.
 var indexAssumptions = map[string]string{
-	"VerifyBatch":   "entry accesses use i+offset (rule B1) with i < batchSize <= remaining and offset+remaining = n = len of all three inputs (rule B0 + the argument-count guard); scratch slots are below heapBatchSize = 2*maxBatchSize+1 because batchSize <= maxBatchSize (rules B0, A)",
-	"VerifyBatch$2": "failBatch is only ever called with the entry index i+offset (rule B1)",
-	"heapSwap":      "Bos-Coster heap: indices are heap positions below heap.size <= count <= heapBatchSize (data-dependent loop invariant, not re-derived)",
-	"heapInsertNext": "Bos-Coster heap: node = heap.size < count and parent = (node-1)/2 >= 0 under Go's truncating division (data-dependent loop invariant)",
-	"heapUpdatedRoot": "Bos-Coster heap: childl = childr-1 < heap.size is checked by the loop condition; parents are (node-1)/2 (relational; not re-derived)",
-	"heapGetTop2":    "the heap always holds at least three entries (count >= 9 is odd; rule E-heap-seed)",
-	"multiScalarmultVartime":      "max1/max2 are heap entries below count; limbSize decreases only while the top limb of the maximum is zero and the maximum is non-zero (data invariant of the arithmetic)",
-	"multiScalarmultVartimeFinal": "the surviving scalar is non-zero and at most 128 bits, so the leading-limb scan stops at or above limb 0 (data invariant of the arithmetic)",
-	"internal/curve25519.Contract$4":            "write51Full is only called with n = 0..3 (constants) and idx advances by 8 from 0 to 24; evaluated concretely by engine R (Pack / IsNeutralVartime jobs) without an out-of-range index",
-	"internal/ge25519.DoubleScalarmultVartime":  "pre1[|d|/2] and nielsSlidingMultiples[|d|/2] rest on the digit magnitudes of the sliding-window recoding (|d| <= 15 resp. <= 63); slide[i] is scanned for i from 255 down to 0 (data invariant of the recoding)",
+	"role:batch-verifier": "entry accesses use offset+i (rule B1) with i < batchSize <= remaining and offset+remaining = n = len of all three inputs (rule B0 + the argument-count guard); scratch slots are below heapBatchSize = 2*maxBatchSize+1 because batchSize <= maxBatchSize (rules B0, A); the fail closure is only ever called with the entry index (rule B1)",
+	"role:bos-coster":     "Bos-Coster heap and multi-scalar loop (every root-package function reachable from the multi-scalar routine): indices are heap positions below heap.size <= count <= heapBatchSize, parents are (node-1)/2 >= 0 under Go's truncating division, the heap always holds at least three entries (count >= 9 is odd; rule E-heap-seed), limbSize decreases only while the top limb of the non-zero maximum is zero, the surviving scalar is non-zero and at most 128 bits (data-dependent loop invariants of the arithmetic, not re-derived)",
+	"role:scMin":          "order[i] with i = 3,2,1,0: the loop returns at i == 0 before decrementing; engine F evaluates the function on every class without an out-of-range index",
+	"internal/curve25519.Contract":               "write51Full is only called with n = 0..3 (constants) and idx advances by 8 from 0 to 24; evaluated concretely by engine R (Pack / IsNeutralVartime jobs) without an out-of-range index",
+	"internal/ge25519.DoubleScalarmultVartime":   "pre1[|d|/2] and nielsSlidingMultiples[|d|/2] rest on the digit magnitudes of the sliding-window recoding (|d| <= 15 resp. <= 63); slide[i] is scanned for i from 255 down to 0 (data invariant of the recoding)",
 	"internal/ge25519.scalarmultBaseChooseNiels": "table[pos*8+i] with i < 8 and pos = digit index / 2 <= 31; engine E evaluates all 32 positions without an out-of-range index",
 	"internal/modm.ContractSlidingWindow":        "the bit-extraction phase is evaluated concretely by the bit-origin rule (256 slots, no out-of-range index); the sliding phase indexes r[j+b] and r[k] under the loop guards b < 256-j and k < 256",
 	"internal/modm.ContractWindow4":              "evaluated concretely by the bit-origin rule (64 slots, no out-of-range index); the signed-digit pass runs i = 0..62 and touches r[i], r[i+1]",
 	"internal/modm.SubVartime":                   "the running limb index takes the values 0..LimbSize-1 along the fall-through chain (one stage per limb; rule U checks the chain)",
-	"scMinimal":                                  "order[i] with i = 3,2,1,0: the loop returns at i == 0 before decrementing; engine F evaluates the function on every class without an out-of-range index",
+}
+
+// indexFamily keys a function by role where it has one, so that renaming a private helper does not change the key.
+func indexFamily(rl *roles.Roles, fn *ssa.Function) string {
+	top := fn
+	for top.Parent() != nil {
+		top = top.Parent()
+	}
+	switch {
+	case rl.VerifyBatch != nil && top == rl.VerifyBatch:
+		return "role:batch-verifier"
+	case rl.ScMin != nil && top == rl.ScMin:
+		return "role:scMin"
+	}
+	if rl.Msm != nil && top.Pkg == rl.Msm.Pkg {
+		mod, _, _ := ssau.Reachable(rl.Msm)
+		for _, f := range mod {
+			if f == top {
+				return "role:bos-coster"
+			}
+		}
+	}
+	return ssau.QName(top)
 }
 
 // sliceReq computes how many elements a module function needs in its i-th (slice) parameter: constant indices and
